@@ -20,7 +20,7 @@ def lcm_all(xs):
 class C01(core.Check):
     pid = 'C01'
     unproved = [
-        'warm-up injection (inject_warmup_candles_to_store) is not in the engine model: decided by the paired-run oracle with injected warm-up candles',
+        'warm-up: step_prefix / fast_prefix hold from EVERY engine state, so also from the one the injection leaves (the warm-up rows are shared by both runs); the injection itself is modelled and proved at store level (C07.inject_warmup_establishes_inv); that the engine model started with warm-up is the real session with warm-up is decided by the paired-run oracle with injected warm-up candles',
     ]
     gen_keys = ['jesse/services/candle.py:split_candle', 'jesse/services/candle.py:generate_candle_from_one_minutes',
                 'jesse/modes/backtest_mode.py:_get_fixed_jumped_candle', 'jesse/services/candle.py:candle_includes_price']
